@@ -63,6 +63,15 @@ pub fn bestmove_text(line: &str) -> String {
     }
 }
 
+/// `go infinite` and `go ponder` ask an engine that knows them to search until told to stop. The
+/// engine under test treats both words as unknown tokens, so nothing depends on it there; an
+/// engine that implements them must not be left waiting for ever by the harness. Every go line
+/// that carries one of the words is therefore followed by `stop` (an unknown command to the
+/// engine as it is).
+pub fn wants_stop(go_line: &str) -> bool {
+    go_line.split_whitespace().any(|t| t == "infinite" || t == "ponder")
+}
+
 impl Sess {
     pub fn start(bin: &Path, mut opts: SpawnOpts, with_log: bool) -> Result<Sess, String> {
         let mut log_path = None;
@@ -105,6 +114,13 @@ impl Sess {
         let plan_ms = plan_for(&line, stm).unwrap_or(0);
         let idx_send = self.eng.transcript.len();
         let t_send = self.eng.send(&line);
+        if wants_stop(&line) {
+            // at once, or a few milliseconds later
+            if idx_send % 2 == 1 {
+                std::thread::sleep(Duration::from_millis(1 + (idx_send % 5) as u64));
+            }
+            self.eng.send("stop");
+        }
         // a plan far beyond anything the workloads intend (e.g. a saturated slice) is not waited for
         let wait_plan = if plan_ms > 10_000 { 0 } else { plan_ms };
         let budget = Duration::from_millis(wait_plan as u64) + extra_wait;
